@@ -138,6 +138,16 @@ claim("C16", "model_checking",
       "TLA+ contract specs (Fuse.tla static, SchedGroups.tla over Sched.tla dynamic) model-checked by TLC over "
       "statements exported from the real fuse_two_dags; programs are TLC-generated ProgGen behaviours")
 
+claim("C19", "model_checking",
+      "every expression up to the node bound (TLC-enumerated behaviours of ExprGen.tla, arithmetic and boolean, "
+      "plain and with backtick-quoted names) plus simulated larger ones is printed by the real str() and parsed "
+      "back by the real parse(); TLC judges each answer (parses, prints identically, same variables, same value "
+      "under all small valuations and two function interpretations) against the expression semantics of Expr.tla",
+      "trusted: conversion between pymbolic objects and the interchange format; values compared on integers and "
+      "booleans only; the printer itself lives in pymbolic (findings there are recorded, not fixed)",
+      "TLA+ contract spec (ExprContracts.tla over Expr.tla) evaluated by TLC over answers of the real "
+      "printer/parser; inputs are TLC-generated behaviours of ExprGen.tla")
+
 NOT_YET = "check not built yet (work in progress, see DESIGN.md section 11)"
 NOT_APPLICABLE = {}
 
